@@ -137,6 +137,26 @@ PROPS["C20"] = dict(
                                  "'bitrate and buffer allow at least three bytes' is read conservatively as bitrate*duration/8 >= 8 bytes and max_data_bytes >= 100"],
 )
 
+PROPS["C11"] = dict(
+    level="exploration",
+    variants=dict(quick=[("asan", 1)], thorough=[("asan", 3), ("fixed-asan", 1)]),
+    must_build=["asan"],
+    runs=dict(quick=8000, thorough=200000), secs=dict(quick=45, thorough=600),
+    rule="one evaluation = one control-plane session: 0-3 creator calls with supported and unsupported (Fs, channels, application, family, streams, coupled, mapping) arguments, each followed by an enumeration of "
+         "allocation failures (fail the k-th opus_alloc for every k the fault-free creation performs; live-block accounting), then an object of seeded kind (encoder, multistream / surround encoder, projection encoder, decoder, "
+         "multistream decoder, projection decoder) driven by every documented request with a value grid {lo-1, lo, lo+1, mid, hi-1, hi, hi+1, AUTO, BITRATE_MAX, INT_MIN, INT_MAX, 0, far below, far above, random}, "
+         "NULL out-pointers, unknown request numbers, requests of the other object family, stream-state accessors and resets, interleaved with encode / decode calls on seeded signals; "
+         "oracle: legal => OPUS_OK + read-back (+ no other getter moves), illegal / NULL / unknown => documented error + every getter unchanged, creation errors and no leak, and on every packet with payload the duration, "
+         "forced channel count (at once when set before the first frame, within three packets when changed mid-stream), bandwidth cap (forced, maximum, Nyquist; MDCT medium-band exception) and MDCT-only rules; "
+         "non-trivial = a rejected request / failed allocation / rejected creation fired or a legal change took effect mid-stream, and >=5 encode/decode calls succeeded; distinct = signature over (request, outcome, TOC, duration) sequence",
+    fault_keys=["ctl_illegal", "ctl_null", "ctl_unknown", "ctl_foreign", "ctl_unsupported", "alloc_fail_injected", "create_rejected"],
+    probes_required=["ctl_legal", "readback_checked", "honour_checked", "honour_checked_ms", "forced_channels_checked", "forced_channels_midstream_checked", "bandwidth_checked", "mdct_only_checked", "create_ok", "resets", "ctl_state_accessor"],
+    real=REAL_CODEC, simulated=SIM_COMMON + ["control plane with value grid", "allocator with k-th allocation failure (CUSTOM_SUPPORT seam)"],
+    assumptions=ASSUME_COMMON + ["encoder OPUS_GET_BANDWIDTH reports the bandwidth in use and multistream OPUS_GET_BITRATE the sum of the per-stream rates in effect: neither is asserted to read back (documented / long-standing API behaviour)",
+                                 "requests whose effect is not visible in the packet header (complexity, signal, LSB depth, prediction, FEC, loss %) are checked for validation and read-back only",
+                                 "argument validity of multistream layouts beyond (Fs, application, channel range) is judged by the library; the check demands consistency (object <=> OPUS_OK, documented error otherwise, no leak)"],
+)
+
 # ---- MANIFEST texts (bin/mkmanifest)
 _TECH = "deterministic simulation with fault injection: "
 _NOTE = "seeded sampling, not proof; trusted: the simulator's oracles and models, the compilers/sanitizers; DRED/OSCE/custom modes not built. "
@@ -172,3 +192,7 @@ PROPS["C20"].update(
     level_text="seeded search over activity/inactivity schedules on the simulated sample clock with DTX toggles, configuration churn and receiver-side loss of refresh / first-after-gap packets; exact timer oracles (200 ms hang-over, 400 ms refresh bound, IN_DTX, resume, no tiny packets with DTX off) plus calibrated receiver-level oracles",
     level_note=_NOTE + "receiver level bounds are calibrated; onset clause only for exact digital silence without intervening control changes",
     technique=_TECH + "sample-clock timers driven by seeded activity schedules, structural-timing oracles, loss faults on DTX/refresh packets")
+PROPS["C11"].update(
+    level_text="seeded search over control-plane sessions with rejected requests as the injected fault (must be atomic: every getter unchanged), plus enumeration of failing allocations for every creator; exact oracles from the request documentation (validation, read-back, no side effects, creation errors, no leak) and TOC-level honouring of the settings in force (duration, forced channels incl. the three-packet bound, bandwidth caps, MDCT-only rules)",
+    level_note=_NOTE + "allocation-failure part enumerates every allocation index of every creator (fault_enumeration); the rest is sampling",
+    technique=_TECH + "rejected-request and failed-allocation faults between frames, documentation-derived settings model, TOC honouring oracle")
